@@ -10,6 +10,7 @@
 // Key: C15:<pgn>:<published field name>.
 #define LAYOUT_NO_MAIN
 #include "layout.cpp"
+#include "node.h"
 #include "published_layouts.h"
 
 static std::string fieldKey(const char *id, const char *name) {
@@ -150,9 +151,64 @@ static void execPgnList(const std::string &line) {
   C.count("pgnlist_checks");
 }
 
+// prodinfo <seed>: PGN 126996 as the NODE sends it from its stored product information (SetProductInformation ->
+// SendProductInformation behind the mock driver), not through a direct setter call: the frames are reassembled and held
+// against the published table - strings of 0, 1, 31 and exactly 32 characters (the full field) included.
+static void execProdInfo(const std::string &line) {
+  C.op("%s", line.c_str()); C.cases++;
+  std::vector<std::string> w = split(line);
+  Rng r(strtoull(w[1].c_str(), nullptr, 10) * 0x9E3779B97F4A7C15ULL + 23);
+  static const int lens[] = {0, 1, 31, 32, 32, 17};
+  std::string str[4]; for (auto &x : str) x = randText(r, lens[r.below(6)]);
+  unsigned code = (unsigned)r.below(65533), ver = 1000 + (unsigned)r.below(2000); unsigned char le = (unsigned char)(1 + r.below(50)), cert = (unsigned char)r.below(3);
+  vh::g_now = 1000;
+  {
+    vh::MockN2k n;
+    n.SetProductInformation(str[3].c_str(), code, str[0].c_str(), str[1].c_str(), str[2].c_str(), le, ver, cert);
+    n.SetMode(tNMEA2000::N2km_NodeOnly, 34);
+    n.EnableForward(false);
+    n.Open();
+    vh::openAndSettle(n);
+    n.sent.clear();
+    bool okSend = n.SendProductInformation(0);
+    for (int i = 0; i < 50; i++) { n.ParseMessages(); vh::g_now++; }
+    // reassemble the fast packet of PGN 126996
+    std::vector<unsigned char> pl; int total = -1;
+    for (auto &f : n.sent) {
+      unsigned long pgn = (f.id >> 8) & 0x3ffff; if (((pgn >> 8) & 0xff) < 240) pgn &= 0x3ff00;
+      if (pgn != 126996UL) continue;
+      if ((f.buf[0] & 0x1f) == 0) { total = f.buf[1]; for (int k = 2; k < f.len; k++) pl.push_back(f.buf[k]); }
+      else for (int k = 1; k < f.len; k++) pl.push_back(f.buf[k]);
+    }
+    if (total >= 0 && (int)pl.size() > total) pl.resize(total);
+    C.out("no-layout");
+    const pub::L *L = layoutOf("126996");
+    if (!okSend || total != 134 || !L) { C.fail("C15:126996:node", "SendProductInformation sent %d payload bytes (ok=%d)", total, (int)okSend); return; }
+    const std::string want[4] = {str[0], str[1], str[2], str[3]};
+    const char *names[4] = {"Model ID", "Software Version Code", "Model Version", "Model Serial Code"};
+    for (int k = 0; k < L->n; k++) {
+      const pub::F &f = L->f[k];
+      for (int q = 0; q < 4; q++) if (!strcmp(f.name, names[q])) {
+        for (int c = 0; c < f.len / 8; c++) {
+          unsigned char b = pl[f.off / 8 + c];
+          bool good = c < (int)want[q].size() ? b == (unsigned char)want[q][c] : (b == 0xff || b == 0x00 || b == ' ');
+          if (!good) { C.fail(fieldKey("126996", (std::string(f.name) + " via node").c_str()), "byte %d of '%s' (%zu characters) is 0x%02x on the bus", c, want[q].c_str(), want[q].size(), b); break; }
+        }
+        C.count("node_product_information_checks");
+      }
+      if (!strcmp(f.name, "Product Code") && (unsigned)(pl[f.off / 8] | (pl[f.off / 8 + 1] << 8)) != code) C.fail("C15:126996:Product_Code_via_node", "product code");
+      if (!strcmp(f.name, "NMEA 2000 Version") && (unsigned)(pl[f.off / 8] | (pl[f.off / 8 + 1] << 8)) != ver) C.fail("C15:126996:Version_via_node", "version");
+      if (!strcmp(f.name, "Load Equivalency") && pl[f.off / 8] != le) C.fail("C15:126996:Load_Equivalency_via_node", "load equivalency");
+      if (!strcmp(f.name, "Certification Level") && pl[f.off / 8] != cert) C.fail("C15:126996:Certification_Level_via_node", "certification level");
+    }
+    C.nontrivial("prodinfo/" + std::to_string(str[0].size()) + "/" + std::to_string(str[1].size()));
+  }
+}
+
 static void exec15(const std::string &line) {
   std::vector<std::string> w = split(line);
   if (!w.empty() && w[0] == "pgnlist") { execPgnList(line); return; }
+  if (w.size() == 2 && w[0] == "prodinfo") { execProdInfo(line); return; }
   exec(line);
   if (w.size() >= 2 && w[0] == "set") {
     const lg::Pair *p = pairOf(w[1]); const pub::L *L = p ? layoutFor(*p) : nullptr;
@@ -252,6 +308,7 @@ int main(int argc, char **argv) {
     for (int i = 0; i < n; i++) s += " " + std::to_string(1 + r.below((1UL << 24) - 1));
     exec15(s);
   }
+  for (int k = 0; k < (C.thorough ? 120 : 24); k++) exec15("prodinfo " + std::to_string(r.below(1000000)));
   C.finish();
   return 0;
 }
